@@ -84,5 +84,48 @@ CLAIMS.update({
         note=_NOTE),
 })
 
+CLAIMS.update({
+    "C06": dict(
+        text="Structural necessary conditions of the routing property on NetworkServiceAccessPoint.process_npdu / indication and the service element: every forwarding send is dominated by the hop-count test and the decrement and uses a copy; "
+             "no send toward the arrival adapter is reachable (identity guards evaluated); SADR preserved or built from (arrival net, link source); last-hop rewriting; the process/forward decision table extracted per destination kind equals clause 6.5; "
+             "outbound addressing is exhaustive, unknown routes park + Who-Is-Router, I-Am-Router releases parked packets. Exactly-once delivery over topologies is not claimed.",
+        technique="guard dominance + decision-table extraction by finite-domain guard evaluation + path enumeration",
+        note=_NOTE),
+    "C13": dict(
+        text="The BBMD's forwarding matrix is extracted per inbound function (who gets the packet under which guard, with which originator) and compared with Annex J.4.5; foreign and simple node rules; all four node types test all twelve functions; "
+             "foreign-device table ageing (TTL + grace on every registration path, one-second tick, removal at zero, descending scan) and the foreign node's renewal / tracking / unregister timers. Exactly-once and instants of expiry over layouts are not claimed.",
+        technique="forwarding-matrix extraction from guards and loop structure + exhaustiveness + path rules",
+        note=_NOTE),
+    "C15": dict(
+        text="Validate-before-mutate on every path of Property.WriteProperty, the writable name/identifier properties and the commandable mix-in; the refusal table (error class/code per failure) in the property classes, both service handlers and the RPM element builder; "
+             "array index value-sets (0 = length, 1..n, IndexError otherwise); sibling normal form of the ReadProperty and ReadPropertyMultiple value conversions and selector polarity; error literals; drift of all 1650 (object type, property) datatypes and conformance codes.",
+        technique="path rules (validate-before-mutate) + guard value-sets + sibling normal form + frozen property reference",
+        note=_NOTE),
+    "C16": dict(
+        text="Both subscribe handlers acknowledge exactly once and defer exactly one initial notification on every non-cancel path; one record per (address, process, object) by truth table of the match; renewal re-times and records the request-derived fields the reporters read (dataflow); "
+             "expiry/cancel cleanup; one deferred execution per change burst; inclusive increment threshold (expression table); every COV-capable object type has a criteria class whose properties it declares. Notification counts over timelines are not claimed.",
+        technique="path enumeration + guard truth tables + field dataflow + table agreement",
+        note=_NOTE),
+    "C17": dict(
+        text="Slot writes are reachable only for array indexes 1..16 with the prescribed refusals for 0 and out-of-range; the winner scan visits 1..16 ascending and stops at the first non-null slot, else the relinquish default; each slot update sets exactly one of (null, value); "
+             "the winner is recomputed and written through the base class; the commanded value is validated before the slot changes; minimum on/off association and priority 6; mix-in order of all 21 commandable classes. Values after arbitrary histories are not claimed.",
+        technique="guard value-sets + path rules + MRO analysis",
+        note=_NOTE),
+    "C18": dict(
+        text="Every store of a network number and every one-octet station pack in pdu.py is shown dominated by its range test (value sets of the guards, with regex-derived sources known non-negative); fields hashed vs fields compared unconditionally; "
+             "all typed constructors set all five fields; the printer is exhaustive over the six address types; mask/host/subnet/broadcast expressions are evaluated against IPv4 arithmetic for all 33 mask lengths. Print/parse round trips are not claimed.",
+        technique="guard value-sets at every sink + field-set comparison + finite-domain expression evaluation",
+        note=_NOTE),
+    "C19": dict(
+        text="Scope resolution of every function of the package (no unbound global reads); the router map and path index are updated together on every loop path of the mutators and a router record disappears only when empty; displacement precedes adoption; renumbering re-keys both indexes; the two learning sites pass (arrival network, link source, networks). Coherence after arbitrary histories is not claimed.",
+        technique="symtable scope resolution + paired-update path rules",
+        note=_NOTE),
+    "C20": dict(
+        text="Return shapes of eval() vs how callers unpack them; every date matcher tests a pattern field for the unspecified octet before a lower-bound comparison (sibling rule); the special-octet tables of match_date / match_weeknday are extracted by evaluating the branch guards for every month, day and week-of-month value against clause 21; "
+             "evaluation order, inclusive time comparison, Null handling, winner selection, weekday index; the timer is re-armed at the computed transition on every evaluating path. The value at every instant against an independent interpreter is not claimed.",
+        technique="return-shape analysis + sibling guard rule + decision-table extraction by finite-domain guard evaluation + path rules",
+        note=_NOTE),
+})
+
 _PENDING = "check not built yet in this round (static rules are designed in DESIGN.md section 3)"
 NOT_APPLICABLE = {("C%02d" % i): _PENDING for i in range(1, 21)}
